@@ -6,6 +6,7 @@ From Coq Require Import List Arith Lia Bool PeanoNat String.
 Import ListNotations.
 Notation length := List.length.
 From SP Require Import Skel Gen Expected ExpectedCones NetA Inv Pres Dead Top Ghost GhostPres NetTop.
+From SP Require TagShare.
 From SP Require Port.
 From SP Require WfModel AuditModel.
 From SP Require Result TaskFS TInv Glue Cor TaskTop.
@@ -174,6 +175,36 @@ Theorem C04_cone_conforms :
   && strs_eqb cone_Sink_Run exp_cone_Sink_Run = true.
 Proof. vm_compute. reflexivity. Qed.
 
+(* ---- one IP object handed to two consumers of an out-port, one of them a tagging component (finding D24, recorded) ----
+   TagShare: OutPort.Send gives every connected in-port the same *FileIP; MapToTags adds its tags to the object it received; a
+   process reads the tags once, when it forms its task, and its default output name contains them.  What the sibling reads is
+   the IP's own tags plus some prefix of the tagger's -- which prefix is up to the schedule ... *)
+Theorem C04_shared_ip_views : forall (tag : Type) (init_tags new_tags : list tag) (shared : bool) l s,
+  TagShare.run tag init_tags new_tags shared (TagShare.init tag) l = Some s ->
+  forall v, TagShare.view tag s = Some v ->
+  exists j, j <= List.length new_tags /\ v = (if shared then (init_tags ++ firstn j new_tags)%list else init_tags).
+Proof. intros tag i n sh l s. exact (TagShare.view_is_some_prefix tag i n sh l s). Qed.
+
+(* ... so the last sentence of C04 fails for this wiring as soon as the tagger has a tag to add: two complete runs of the same
+   workflow on the same inputs in which the sibling saw different tags (and named its output differently) *)
+Theorem C04_shared_ip_timing_dependent_refuted : forall (tag : Type) (init_tags new_tags : list tag), new_tags <> [] ->
+  exists l1 s1 l2 s2 v1 v2,
+    TagShare.run tag init_tags new_tags true (TagShare.init tag) l1 = Some s1 /\ TagShare.complete tag new_tags s1 /\ TagShare.view tag s1 = Some v1 /\
+    TagShare.run tag init_tags new_tags true (TagShare.init tag) l2 = Some s2 /\ TagShare.complete tag new_tags s2 /\ TagShare.view tag s2 = Some v2 /\
+    v1 <> v2.
+Proof. exact TagShare.shared_object_timing_dependent. Qed.
+
+(* a tagger that worked on a copy of its own would leave the sibling's view a function of the input alone *)
+Theorem C04_private_copy_deterministic : forall (tag : Type) (init_tags new_tags : list tag) l s,
+  TagShare.run tag init_tags new_tags false (TagShare.init tag) l = Some s ->
+  forall v, TagShare.view tag s = Some v -> v = init_tags.
+Proof. exact TagShare.private_copy_deterministic. Qed.
+
+Theorem C04_shared_ip_nonvacuous :
+  exists l1 s1 l2 s2, TagShare.run nat [] [7] true (TagShare.init nat) l1 = Some s1 /\ TagShare.view nat s1 = Some [] /\
+                      TagShare.run nat [] [7] true (TagShare.init nat) l2 = Some s2 /\ TagShare.view nat s2 = Some [7].
+Proof. exact TagShare.d24. Qed.
+
 Print Assumptions C04_code_conforms.
 Print Assumptions C04_tasks_are_zip.
 Print Assumptions C04_emitted_exactly_once.
@@ -188,3 +219,7 @@ Print Assumptions C04_port_complete.
 Print Assumptions C04_port_progress.
 Print Assumptions C04_nonvacuous.
 Print Assumptions C04_cone_conforms.
+Print Assumptions C04_shared_ip_views.
+Print Assumptions C04_shared_ip_timing_dependent_refuted.
+Print Assumptions C04_private_copy_deterministic.
+Print Assumptions C04_shared_ip_nonvacuous.
